@@ -48,13 +48,13 @@ func cShiftRightOne(n *cnode) *cnode {
 
 func init() {
 	register(&Rule{
-		ID: "MI", Props: []string{"C10"}, Min: 5,
+		ID: "MI", Props: []string{"C10"}, Min: 7,
 		Doc: `"an occurrence that starts with deleted pattern positions is found from the first text position on": in ManberIndel (apat_search.c, clang AST) the transition of level e
 reads the state of level e-1 of the SAME column shifted by one (the term pr[1] >> 1: a pattern position deleted, no text consumed). A state array with such a term has to be closed under it before the first
 column as well: the loop that sets the initial state of each level (*pr = v) must carry v to (v >> 1) | s for the next level, s being the start bit the scan ORs in — the textbook initial condition
 1^e 0^(m-e) of Wu & Manber. With all levels started at the same v, an occurrence whose first e pattern positions are deleted is not found at the start of the window (the state it needs is only there one
 column later). Two obligations: (1) the transition holds the three edit terms (pr[0], pr[0] >> 1, pr[1] >> 1) — otherwise the matcher called for hasIndel does not do indels; (2) the initialisation loop applies the
-closure. The substitution-only sibling ManberSub has no same-column term and is not concerned. (3) In the three scanners no value that went through '&' is the operand of a shift: the masks (smat[c], the complement of the obligatory positions) are indexed by the positions of the new column and apply to the shifted state. This decides the shape of the initial condition and of the transition, not the matcher.`,
+closure. The substitution-only sibling ManberSub has no same-column term and is not concerned. (3) In the three scanners no value that went through '&' is the operand of a shift: the masks (smat[c], the complement of the obligatory positions) are indexed by the positions of the new column and apply to the shifted state. (4) An obligatory position (#) is treated alike everywhere: the initial deletions go through the same mask (~omask) as the deletion term of the transition, and the insertion term is outside that mask — an inserted symbol is not an error on a position; masked, it was refused on one side of a # and accepted on the other, and the two strands disagreed. This decides the shape of the initial condition and of the transition, not the matcher.`,
 		Run: func(c *Ctx, s *Sink) {
 			dir := filepath.Join(c.Repo, "pkg/obiapat")
 			// (3) the masks are applied to the shifted state, in the three scanners
@@ -101,7 +101,7 @@ closure. The substitution-only sibling ManberSub has no same-column term and is 
 			pos := fmt.Sprintf("pkg/obiapat/apat_search.c:%d", cLine(fn))
 			// (1) the transition: an assignment to p[3] whose right side reads p[0], p[0] >> 1 and p[1] >> 1
 			var state string // the pointer walking the state array
-			var ins, sub, del bool
+			var ins, sub, del, insMasked bool
 			var startBit string
 			fn.walk(func(n *cnode, _ []*cnode) {
 				if n.Kind != "BinaryOperator" || n.Op != "=" || len(n.Inner) != 2 {
@@ -155,6 +155,11 @@ closure. The substitution-only sibling ManberSub has no same-column term and is 
 							}
 						}
 						ins = true
+						for _, a := range stack {
+							if a.Kind == "BinaryOperator" && a.Op == "&" {
+								insMasked = true
+							}
+						}
 					}
 				})
 			})
@@ -198,7 +203,7 @@ closure. The substitution-only sibling ManberSub has no same-column term and is 
 				return
 			}
 			lpos := fmt.Sprintf("pkg/obiapat/apat_search.c:%d", cLine(loop))
-			updated, closed := false, false
+			updated, closed, closedMasked := false, false, false
 			loop.walk(func(m *cnode, _ []*cnode) {
 				if m == loop.Inner[0] {
 					return
@@ -208,9 +213,24 @@ closure. The substitution-only sibling ManberSub has no same-column term and is 
 					r := stripCasts(m.Inner[1])
 					if m.Op == "=" && r != nil && r.Kind == "BinaryOperator" && r.Op == "|" && len(r.Inner) == 2 {
 						for i := 0; i < 2; i++ {
+							sb := cVarName(r.Inner[1-i])
+							if sb == "" || startBit != "" && sb != startBit {
+								continue
+							}
 							if x := cShiftRightOne(r.Inner[i]); x != nil && cVarName(x) == v {
-								if sb := cVarName(r.Inner[1-i]); sb != "" && (startBit == "" || sb == startBit) {
-									closed = true
+								closed = true
+							}
+							// ((v >> 1) & mask) | s : the closure under the mask of the obligatory positions
+							if a := stripCasts(r.Inner[i]); a != nil && a.Kind == "BinaryOperator" && a.Op == "&" && len(a.Inner) == 2 {
+								for k := 0; k < 2; k++ {
+									if x := cShiftRightOne(a.Inner[k]); x != nil && cVarName(x) == v {
+										closed = true
+										a.Inner[1-k].walk(func(q *cnode, _ []*cnode) {
+											if q.Kind == "MemberExpr" && q.Name == "omask" {
+												closedMasked = true
+											}
+										})
+									}
 								}
 							}
 						}
@@ -218,6 +238,24 @@ closure. The substitution-only sibling ManberSub has no same-column term and is 
 				}
 			})
 			// the initialiser of the for statement is not an update of the loop
+			// (4) what the transition does to an obligatory position, the initial states do too; an insertion is not an error ON a position
+			key4 := "pkg/obiapat/apat_search.c:ManberIndel:initial-deletions-spare-the-obligatory-positions"
+			key5 := "pkg/obiapat/apat_search.c:ManberIndel:insertion-outside-the-mask-of-the-obligatory-positions"
+			switch {
+			case closed && !closedMasked:
+				o := s.add(Violation, nil, key4, 0, "the transition masks its deletion term with the complement of the obligatory positions (omask) and the initial states are built without it: an obligatory position (#) at the head of the pattern is deleted for free at the first position of the search window and nowhere else — A#CGTACGT with one error matches cgtacgt at offset 0, not in the middle of a sequence, not through the reverse complement")
+				o.Pos = lpos
+			case closed:
+				o := s.add(Pass, nil, key4, 0, "the initial deletions go through the mask of the obligatory positions")
+				o.Pos = lpos
+			}
+			if insMasked {
+				o := s.add(Violation, nil, key5, 0, "the insertion term ("+state+"[0]) is under the mask of the obligatory positions: a symbol inserted just after a # position is refused, just before it is accepted — ACGT#ACGT with one error misses acgtGacgt, which its reverse complement finds on the other strand")
+				o.Pos = pos
+			} else {
+				o := s.add(Pass, nil, key5, 0, "the insertion term is outside the mask of the obligatory positions")
+				o.Pos = pos
+			}
 			switch {
 			case closed:
 				o := s.add(Pass, nil, key2, 0, "the initial state of level e+1 is (that of level e >> 1) | "+startBit+": closed under the deletion term of the transition")
